@@ -55,6 +55,11 @@ func StartKeygenCommon(taproot bool, group curve.Curve, participants []party.ID,
 		}
 
 		refresh := true
+		// the last round adds the fresh shares to this scalar: work on a copy, so that the caller's
+		// config keeps its share (and stays consistent) whatever becomes of the refresh
+		if privateShare != nil {
+			privateShare = group.NewScalar().Set(privateShare)
+		}
 		if privateShare == nil || publicKey == nil {
 			refresh = false
 			privateShare = group.NewScalar()
